@@ -21,6 +21,9 @@ const INPUTS: &[&str] = &[
     "Heat #oven to 180 °C. Add @sugar{1/3%cup} and @salt{1.26%tsp}.\n",
     "@a{1%g} @&a{1%ml} @b{} @{} ~x\n",
     ">> servings: 2|4\n@eggs{2|4} @milk{0.333%l}\n",
+    // diagnostics that quote pieces of the input (unknown timer unit, a timer unit that is not time,
+    // an unknown config key)
+    "Cook ~{10%Minuten} then ~{5%kg}.\n>> [bogus]: x\n",
 ];
 
 fn mix(a: u64, b: u64) -> u64 {
@@ -44,6 +47,9 @@ enum Op {
     UnitParse(usize),
     /// `ScaledQuantity::try_fraction`: the shortest public path to the per-unit fractions configuration
     TryFraction(usize),
+    /// parse and render the report (plain or coloured) into a buffer: what an application does with
+    /// diagnostics, possibly while other threads are parsing
+    Render(usize, usize, bool),
 }
 
 const UNITS: &[&str] = &["g", "min", "ml", "kg", "tsp", "h", "cup", "lb", "nope", "°C", "s", "l"];
@@ -68,6 +74,12 @@ fn run(parsers: &[CooklangParser], op: Op) -> String {
     match op {
         Op::Parse(p, i) => format!("{:?}", parsers[p].parse(INPUTS[i])),
         Op::Meta(p, i) => format!("{:?}", parsers[p].parse_metadata(INPUTS[i])),
+        Op::Render(p, i, color) => {
+            let r = parsers[p].parse(INPUTS[i]);
+            let mut buf = Vec::new();
+            let res = r.report().write("m.cook", INPUTS[i], color, &mut buf);
+            format!("{:?} {:?} {}", r.report(), res.map_err(|e| e.kind()), String::from_utf8_lossy(&buf))
+        }
         Op::ScaleConvert(p, i) => {
             let r = parsers[p].parse(INPUTS[i]);
             match r.into_output() {
@@ -172,9 +184,12 @@ fn main() {
             let r = mix(seed, 1000 + (t * 16 + k) as u64);
             let p = (r % 2) as usize;
             let i = ((r >> 8) % INPUTS.len() as u64) as usize;
-            ops.push(match (r >> 16) % if full { 4 } else { 3 } {
+            ops.push(match (r >> 16) % if full { 6 } else { 5 } {
                 0 | 1 => Op::Parse(p, i),
                 2 => Op::Meta(p, i),
+                // rendering next to parsing: a renderer's process-wide switches (colour) must not be
+                // visible to a parse on another thread. One thread renders plain, the next coloured.
+                3 | 4 => if t % 2 == 0 { Op::Render(p, (r >> 24) as usize % INPUTS.len(), t % 4 == 0) } else { Op::Parse(p, INPUTS.len() - 1) },
                 _ => Op::ScaleConvert(0, i),
             });
         }
